@@ -2,6 +2,22 @@
 (* evaluates the theorems of Meta.tla (ASSUME) and writes the two factors of the case   *)
 (* space Cases = PInfos x CInfos x {direct, pass}                                       *)
 EXTENDS Meta, Json, IOUtils
+(* (kept here, not in Meta.tla: every module that extends Meta would re-evaluate it) *)
+(* C07 as theorems over the whole product of producer / consumer infos *)
+ASSUME \A po \in PInfos, ci \in CInfos :
+   LET r == Exchange(po, ci) IN
+   /\ (r.res = "ok") <=> ~(GridConflict(po, ci) \/ UnitsConflict(po, ci) \/ MaskConflict(po, ci) \/ Unfillable(po, ci))
+   /\ (r.res = "ok") =>
+        /\ r.inp.time # "none" /\ r.inp.grid # "none" /\ r.inp.units # "none"
+        /\ SameLocations(r.inp.grid, r.out.grid)
+        /\ Dim(r.inp.units) = Dim(r.out.units)
+        /\ ~MaskConflict(r.out, ci)
+        /\ (po.grid = "none" => r.out.grid = ci.grid) /\ (ci.grid = "none" => r.inp.grid = r.out.grid)
+        /\ (po.units = "none" => r.out.units = ci.units) /\ (ci.units = "none" => r.inp.units = r.out.units)
+        /\ (po.time = "none" => r.out.time = ci.time) /\ (ci.time = "none" => r.inp.time = r.out.time)
+        /\ (po.foo = "none" => r.out.foo = ci.foo) /\ (ci.foo = "none" => r.inp.foo = r.out.foo)
+        /\ r.inp.foo # "none" /\ r.out.foo # "none"
+
 ASSUME ndJsonSerialize(IOEnv.OUT_FILE, <<[pinfos |-> SetToSeq(PInfos), cinfos |-> SetToSeq(CInfos)]>>)
 VARIABLE x
 Init == x = 0
